@@ -178,6 +178,8 @@ class Ser:
                 self.out("typed IntNode %s" % node.type)
             if node.unsigned or node.longness:
                 self.out("C literal suffix")
+            if self.rhs_mode and node.type is PyrexTypes.py_object_type:
+                return ["T", "0", "E"]      # constant-folded literal: plain object
             return ["I", str(Utils.str_to_number(node.value))]
         if isinstance(node, E.FloatNode):
             return ["F"]
@@ -227,6 +229,8 @@ class Ser:
                 return ["U", str(k)] + self.ser(node.operand, env, inner, c2)
         if isinstance(node, E.BinopNode) and getattr(node, "operator", None) in BINOPS and type(node).__name__ in (
                 "AddNode", "SubNode", "MulNode", "DivNode", "ModNode", "IntBinopNode", "BitwiseOrNode"):
+            if node.operator == "/" and not node.truedivision:
+                self.out("true division flag unknown (augmented /=)")
             return (["O", str(BINOPS.index(node.operator))] + self.ser(node.operand1, env, inner, ctx | {"arith"})
                     + self.ser(node.operand2, env, inner, ctx | {"arith"}))
         if isinstance(node, E.BinopNode):
